@@ -21,6 +21,7 @@ func WithRepeat(print func(string), interval gotime.Duration, fn func(int64) app
 
 	// Call handler function repetitively
 	print("\033[2J") // Initial screen clearing
+	interval = verifTickInterval(interval)
 	ticker := gotime.NewTicker(interval)
 	defer ticker.Stop()
 	secondsCounter := int64(0) // Choose large type because of overflow
